@@ -261,7 +261,8 @@ def corpus_workload(tier, deadline):
                         if op == "delete":
                             tr.delete(a, b)
                         else:
-                            tr.replace(a, b, doc.slice(min(a + 1, b), b))
+                            a1 = next((q for q in ok_pos if a < q <= b), b)  # never a position inside a surrogate pair
+                            tr.replace(a, b, doc.slice(a1, b))
                         for st, d in zip(tr.steps, tr.docs):
                             inv = st.invert(d)
                             st.get_map().map(a, 1)
